@@ -108,22 +108,30 @@ def cssDecode (s : Str) : Str := cssDecodeGo (s.length + 2) s
 
 /-! ### what a browser would object to in a decoded style text -/
 
-/-- the letter variants old browsers accept in keywords: small capitals (U+0280 U+026A U+0274
-    U+029F), full-width forms when `wide`, upper case -/
-def foldChar (wide : Bool) (c : Char) : Char :=
-  let n := c.toNat
-  if n = 0x280 then 'r' else if n = 0x26A then 'i' else if n = 0x274 then 'n' else if n = 0x29F then 'l'
-  else if wide && 0xFF21 ≤ n && n ≤ 0xFF5A then Genshi.Str.lower (Char.ofNat (n - 0xFEE0))
-  else Genshi.Str.lower c
+def smallCap : Char → List Nat
+  | 'r' => [0x280]
+  | 'i' => [0x26A]
+  | 'n' => [0x274]
+  | 'l' => [0x29F]
+  | _ => []
+
+/-- the spellings of an ASCII lower-case letter that (old) browsers accept in a keyword: the
+    letter, its capital, its small capital (U+0280 U+026A U+0274 U+029F) and, when `wide`, the
+    two full-width forms -/
+def letterVariants (wide : Bool) (x : Char) : List Nat :=
+  [x.toNat, x.toNat - 32] ++ smallCap x ++
+    (if wide then [x.toNat + 0xFEE0, x.toNat - 32 + 0xFEE0] else [])
 
 def expressionWord : Str := ['e', 'x', 'p', 'r', 'e', 's', 's', 'i', 'o', 'n']
 def urlWord : Str := ['u', 'r', 'l']
 
-/-- the text starts with the keyword (up to folding), optional white space and `(`: the text
-    after the parenthesis -/
+def wordClasses (wide : Bool) (w : Str) : List (List Nat) := w.map (letterVariants wide)
+
+/-- the text starts with the keyword (in any accepted spelling), optional white space and `(`:
+    the text after the parenthesis -/
 def callAt (wide : Bool) (word : Str) (s : Str) : Option Str :=
-  if word.isPrefixOf ((s.take word.length).map (foldChar wide)) then
-    match (s.drop word.length).dropWhile isSpace with
+  if matchClasses (wordClasses wide word) s then
+    match (dropClasses (wordClasses wide word) s).dropWhile isSpace with
     | '(' :: r => some r
     | _ => none
   else none
@@ -133,13 +141,19 @@ def hasExpression : Str → Bool
   | [] => false
   | c :: cs => (callAt true expressionWord (c :: cs)).isSome || hasExpression cs
 
-/-- the arguments of every `url(` in the text (up to the closing parenthesis or the end) -/
-def urlArgs : Str → List Str
-  | [] => []
-  | c :: cs =>
+def urlArgsGo : Nat → Str → List Str
+  | 0, _ => []
+  | _ + 1, [] => []
+  | f + 1, c :: cs =>
     match callAt false urlWord (c :: cs) with
-    | some r => r.takeWhile (· ≠ ')') :: urlArgs cs
-    | none => urlArgs cs
+    | some r =>
+      if (r.takeWhile (· ≠ ')')).isEmpty then urlArgsGo f cs
+      else r.takeWhile (· ≠ ')') :: urlArgsGo f (r.dropWhile (· ≠ ')'))
+    | none => urlArgsGo f cs
+
+/-- the arguments of the `url(` tokens of the text, read left to right: an argument runs to the
+    closing parenthesis (or the end) and is skipped as a whole; `url()` holds no URI -/
+def urlArgs (s : Str) : List Str := urlArgsGo (s.length + 1) s
 
 def isQuote (c : Char) : Bool := c = '"' || c = '\''
 
